@@ -1,6 +1,7 @@
 package checks
 
 import (
+	"math"
 	"fmt"
 
 	"github.com/ostafen/clover/v2/query"
@@ -79,7 +80,7 @@ func init() {
 			}
 		}
 		size := len(eng.DefaultDataset())
-		wins := []int{-1, 0, 1, 2, size - 1, size, size + 1}
+		wins := []int{-1, 0, 1, 2, size - 1, size, size + 1, math.MaxInt, math.MinInt} // the extremes: "no limit" idioms, and window arithmetic that must not overflow
 		shapes := []eng.Shape{}
 		addWindows := func(base eng.Shape) {
 			shapes = append(shapes, base)
@@ -111,6 +112,6 @@ func init() {
 		eng.QuerySweep(cfg, run)
 		sortOptionAliasing(run)
 		run.Set("distinct_nontrivial", run.DistinctCount("results"))
-		return "every sort option list (each of x, y, _id, n.a with directions -7,-1,0,1,5; every ordered pair of distinct fields with four direction pairs; Sort() without options; no sort) x skip,limit in {-1,0,1,2,size-1,size,size+1}^2 (plus unset) x 5 criteria (none, ranges on the sort field, Or/NotExists) on twins without index and with indexes on x, y, x+y, n.a, over a 13-document collection with duplicate, missing, nil and mixed-type keys; oracle: the returned sort-key tuples equal the window [n,n+m) of the reference-sorted selection (absent = nil); unsorted: count min(m,max(0,total-n)), distinct, all matching; Count of the same query equals the number of documents returned; distinct = distinct result signatures"
+		return "every sort option list (each of x, y, _id, n.a with directions -7,-1,0,1,5; every ordered pair of distinct fields with four direction pairs; Sort() without options; no sort) x skip,limit in {-1,0,1,2,size-1,size,size+1,MaxInt,MinInt}^2 (plus unset) x 5 criteria (none, ranges on the sort field, Or/NotExists) on twins without index and with indexes on x, y, x+y, n.a, over a 13-document collection with duplicate, missing, nil and mixed-type keys; oracle: the returned sort-key tuples equal the window [n,n+m) of the reference-sorted selection (absent = nil); unsorted: count min(m,max(0,total-n)), distinct, all matching; Count of the same query equals the number of documents returned; distinct = distinct result signatures"
 	})
 }
